@@ -25,6 +25,8 @@ def make_chain(seed, coin, nblocks, base=0):
         cb.add_block(txs=txs)
     chain = cb.chain()
     if rng.random() < 0.3:
+        gen.vary_times(rng, chain, keep_first=True)
+    if rng.random() < 0.3:
         gen.add_slack(rng, chain, coin, share=0.5)      # records longer than their block (bytes behind the block inside the record)
     return chain
 
